@@ -410,6 +410,7 @@ func rulesC05(p *Prog, r *Report) {
 	}
 	ruleP1(p, r, eng)
 	ruleG8(p, r)
+	ruleAfterRecognition(p, r, "G9", true)
 }
 
 // ruleG8: a license atom absorbs at most one '+'. Two layers can absorb a '+' that abuts an id: the
